@@ -421,6 +421,21 @@ func c23WellFormed(r *vlib.Run, id, mode string, dec *descriptorpb.FileDescripto
 		}
 		if e := checkSpan(st, l.Span); e != "" {
 			viol("c23.span-malformed", e, l, nil)
+		} else if pi.err == "" {
+			// observed only (stronger than the property): a location of a `name` field should span that very name
+			if want, ok := nameAt(dec, l.Path); ok {
+				so, _ := st.offsetOf(l.Span[0], l.Span[1])
+				eo, _ := st.offsetOf(l.Span[0], l.Span[2])
+				if len(l.Span) == 4 {
+					eo, _ = st.offsetOf(l.Span[2], l.Span[3])
+				}
+				if so <= eo && strings.EqualFold(st.text[so:eo], want) {
+					r.Class("observed: name location spans the element's name")
+				} else {
+					r.Class("observed: NAME LOCATION DOES NOT SPAN THE ELEMENT'S NAME (" + elementOfPath(l.Path) + ")")
+					r.Extra("name_span_mismatch_example", map[string]any{"case": id, "path": l.Path, "span": l.Span, "spanned text": trunc(st.text[so:max(so, eo)], 80), "element name": want})
+				}
+			}
 		}
 		for _, c := range locComments(l) {
 			ncomments++
@@ -747,4 +762,37 @@ func c23OracleSelfTest(r *vlib.Run, dec *descriptorpb.FileDescriptorProto, types
 		return
 	}
 	r.Class("oracle self-test passed (perturbed paths and spans are all refused)")
+}
+
+// nameAt returns the name of the element whose `name` field the path addresses.
+func nameAt(fd *descriptorpb.FileDescriptorProto, path []int32) (string, bool) {
+	if len(path) < 3 || path[len(path)-1] != 1 {
+		return "", false
+	}
+	m := fd.ProtoReflect()
+	for i := 0; i < len(path)-1; {
+		f := m.Descriptor().Fields().ByNumber(protoreflect.FieldNumber(path[i]))
+		if f == nil || f.Message() == nil || isOptionsMsg(f.Message()) {
+			return "", false
+		}
+		i++
+		if f.IsList() {
+			if i >= len(path)-1 {
+				return "", false
+			}
+			l := m.Get(f).List()
+			if int(path[i]) >= l.Len() {
+				return "", false
+			}
+			m = l.Get(int(path[i])).Message()
+			i++
+		} else {
+			m = m.Get(f).Message()
+		}
+	}
+	nf := m.Descriptor().Fields().ByNumber(1)
+	if nf == nil || nf.Name() != "name" || nf.Kind() != protoreflect.StringKind {
+		return "", false
+	}
+	return m.Get(nf).String(), true
 }
